@@ -60,7 +60,9 @@ def run(rep, tier, seed):
                     ext = {'dst': 8 * size}
                     if hasrc:
                         ext['src'] = 8 * size
-                    eff = harness.run_routine(mod, names[0], {}, values={'size': size, 'num_threads_copy': nt & 0xFFFFFFFF}, extents=ext)
+                    # both relative placements of the two buffers (an overlap test that orders addresses takes different paths)
+                    eff = harness.run_routine(mod, names[0], {}, values={'size': size, 'num_threads_copy': nt & 0xFFFFFFFF}, extents=ext,
+                                              opts={'layout_reverse': bool((size + nt) & 1)})
                 except _Sink as e:
                     rep.refute(tag, 'parcopy-bounded', wrapcheck.sink_site(e, site), str(e))
                     continue
